@@ -43,7 +43,7 @@ theorem guarded_sites_checked : guardedOK = true := by decide +kernel
 
 /-- how the sites are accounted for: (modelled — flag / cross-function flag / model branch —,
 safe by extracted guard (checked above), safe by prose argument: the trusted classifications) -/
-theorem classification_counts : classCounts = (101, 141, 111) := by decide +kernel
+theorem classification_counts : classCounts = (101, 142, 119) := by decide +kernel
 
 /-- the session layer has exactly three statement lists that close a reply channel — completion in
 `handlePeerMsg`, completion in `handleRequest`, the expiry sweep in `Loop` —; their clean-up operations
